@@ -202,6 +202,38 @@ pub(crate) struct Kademlia {
     executor: QueryExecutor,
 }
 
+#[cfg(litep2p_verif)]
+impl Kademlia {
+    /// `node` area: what this constructed object holds (read-only).
+    fn verif_note(&self) {
+        if !crate::verif::config_notes_enabled() {
+            return;
+        }
+        let store = self.store.verif_config();
+        let (engine_rf, engine_pf) = self.engine.verif_factors();
+        crate::verif::note_config(
+            self.service.local_peer_id(),
+            "kad",
+            format!(
+                "rf={}/{} pf={} ttl={} upd={:?} val={:?} mr={} mrs={} mpk={} mpa={} mppk={} pri={} pttl={}",
+                self.replication_factor,
+                engine_rf,
+                engine_pf,
+                self.record_ttl.as_millis(),
+                self.update_mode,
+                self.validation_mode,
+                store.max_records,
+                store.max_record_size_bytes,
+                store.max_provider_keys,
+                store.max_provider_addresses,
+                store.max_providers_per_key,
+                store.provider_refresh_interval.as_millis(),
+                store.provider_ttl.as_millis(),
+            ),
+        );
+    }
+}
+
 impl Kademlia {
     /// Create new [`Kademlia`].
     pub(crate) fn new(mut service: TransportService, config: Config) -> Self {
@@ -1067,6 +1099,8 @@ impl Kademlia {
     /// [`Kademlia`] event loop.
     pub async fn run(mut self) -> crate::Result<()> {
         tracing::debug!(target: LOG_TARGET, "starting kademlia event loop");
+        #[cfg(litep2p_verif)]
+        self.verif_note();
 
         loop {
             // poll `QueryEngine` for next actions.
